@@ -189,8 +189,23 @@ Qed.
 
 (* ================================================================ C19 *)
 
+(* side conditions on the reader's line-break class (regenerated) *)
+Definition reader_classes_ok : bool :=
+  LBR LF && none_of LBR hex_alphabet && negb (LBR SP) && negb (LBR TAB) && forallb (fun c => negb (LBR c)) digits10.
+
+Lemma reader_classes_ok_true : reader_classes_ok = true.
+Proof. vm_compute. reflexivity. Qed.
+
+Lemma LBR_LF : LBR LF = true. Proof. reflexivity. Qed.
+Lemma hex_alphabet_LBR : none_of LBR hex_alphabet = true. Proof. reflexivity. Qed.
+Lemma digit_LBR c : ascii_digit c = true -> LBR c = false.
+Proof.
+  assert (A : forallb (fun c => negb (LBR c)) digits10 = true) by reflexivity.
+  rewrite forallb_forall in A. intro H. specialize (A c (ascii_digit_in c H)). destruct (LBR c); [discriminate | reflexivity].
+Qed.
+
 Definition cfgR (dec : list N -> option str) (encb : N -> bool) (prefix : bool) : rcfg :=
-  {| r_lb := LB; r_ws := WS; r_iws := IWS; r_dz := DZ;
+  {| r_lb := LBR; r_ws := WS; r_iws := IWS; r_dz := DZ;
      r_rej := check_valid_rejected; r_rej_empty := check_valid_rejects_empty;
      r_dec := dec; r_encb := encb; r_prefix := prefix |}.
 
@@ -210,6 +225,31 @@ Proof.
   apply rout_eq; simpl; rewrite ?E1, ?E2, ?E3; try rewrite app_nil_r; try reflexivity. lia.
 Qed.
 
+(* check_valid rejects TAB, CR, LF and every code point on which the reader's
+   line iteration splits (side condition on the regenerated constants) *)
+Definition reader_linebreaks_rejected : bool :=
+  forallb (fun c => memN c check_valid_rejected) (TAB :: CR :: LF :: reader_linebreaks).
+
+Lemma accepted_not_rejected p c : accepted p = true -> In c p -> memN c check_valid_rejected = false.
+Proof.
+  intros Hacc Hin. unfold accepted, check_valid in Hacc. apply andb_true_iff in Hacc. destruct Hacc as [_ Hall].
+  rewrite forallb_forall in Hall. specialize (Hall c Hin). destruct (memN c check_valid_rejected); [discriminate | reflexivity].
+Qed.
+
+Lemma accepted_no_reader_break : reader_linebreaks_rejected = true -> forall p, accepted p = true ->
+  none_of LBR p = true /\ none_of is_crlf p = true.
+Proof.
+  intros HR p Hacc. unfold reader_linebreaks_rejected in HR. rewrite forallb_forall in HR.
+  split; unfold none_of; apply forallb_forall; intros c Hc; pose proof (accepted_not_rejected p c Hacc Hc) as Hn.
+  - destruct (LBR c) eqn:E; [|reflexivity]. exfalso.
+    unfold LBR, memN in E. apply existsb_exists in E. destruct E as [x [Hx E]]. apply N.eqb_eq in E. subst x.
+    rewrite (HR c) in Hn; [discriminate|]. right. right. right. exact Hx.
+  - unfold is_crlf. destruct (N.eqb c CR) eqn:E1.
+    + apply N.eqb_eq in E1. subst c. rewrite (HR CR) in Hn; [discriminate | right; left; reflexivity].
+    + destruct (N.eqb c LF) eqn:E2; [|reflexivity].
+      apply N.eqb_eq in E2. subst c. rewrite (HR LF) in Hn; [discriminate | right; right; left; reflexivity].
+Qed.
+
 (* $HEX[...] *)
 Theorem hex_inst : forall dec encb (enc : str -> list N) p,
   dec (enc p) = Some p -> forallb is_byte (enc p) = true ->
@@ -219,8 +259,8 @@ Proof.
   intros dec encb enc p Hd Hb He Hv.
   replace (hex_line enc p) with (hex_body (enc p) ++ [LF])
     by (unfold hex_line, hex_body; rewrite <- !app_assoc; reflexivity).
-  apply (read_single (cfgR dec encb false) (hex_body (enc p)) p 1 LB_LF).
-  - change (none_of LB (hex_body (enc p)) = true). apply hex_body_none; [exact hex_alphabet_LB | assumption].
+  apply (read_single (cfgR dec encb false) (hex_body (enc p)) p 1 LBR_LF).
+  - change (none_of LBR (hex_body (enc p)) = true). apply hex_body_none; [exact hex_alphabet_LBR | assumption].
   - apply read_line_body; try reflexivity; try assumption.
     + apply hex_body_no_crlf. assumption.
     + rewrite unhex_hex by assumption. exact Hd.
@@ -228,43 +268,39 @@ Proof.
 Qed.
 
 (* a plain line: needs the password free of code points the line iteration splits on *)
-Theorem plain_inst : linebreaks_rejected = true -> forall dec encb p,
+Theorem plain_inst : reader_linebreaks_rejected = true -> forall dec encb p,
   accepted p = true -> is_hex_shaped p = false -> forallb encb p = true ->
   read_text (cfgR dec encb false) (plain_line p) = result [p] 1.
 Proof.
   intros HR dec encb p Hv Hh He.
-  assert (Hs : safe p = true) by (apply (accepted_values_safe HR p [] p []); [assumption | rewrite app_nil_r; reflexivity]).
-  assert (Hn : no_lb (cfgR dec encb false) p) by (change (none_of LB p = true); apply (safe_value_lb LB); exact Hs).
-  apply (read_single (cfgR dec encb false) p p 1 LB_LF Hn); [|lia].
+  destruct (accepted_no_reader_break HR p Hv) as [Hn Hc].
+  apply (read_single (cfgR dec encb false) p p 1 LBR_LF Hn); [|lia].
   apply read_line_body; try reflexivity; try assumption.
-  - apply (no_lb_no_crlf (cfgR dec encb false) LB_LF LB_CR). exact Hn.
-  - apply unhex_plain. assumption.
+  apply unhex_plain. assumption.
 Qed.
 
 (* a count-prefixed line: blanks, decimal digits, one space, then the payload
    in plain or in hex form *)
-Definition blanks (pad : str) : Prop := forallb WS pad = true /\ none_of LB pad = true.
+Definition blanks (pad : str) : Prop :=
+  forallb WS pad = true /\ none_of LBR pad = true /\ none_of is_crlf pad = true.
 
-Theorem prefix_plain_inst : linebreaks_rejected = true -> forall dec encb pad ds p,
+Theorem prefix_plain_inst : reader_linebreaks_rejected = true -> forall dec encb pad ds p,
   blanks pad -> ds <> [] -> forallb ascii_digit ds = true ->
   accepted p = true -> is_hex_shaped p = false -> forallb encb p = true ->
   read_text (cfgR dec encb true) (count_line pad ds p ++ [LF]) =
     result (repeat p (N.to_nat (digits_value ds))) (Z.of_N (digits_value ds)).
 Proof.
-  intros HR dec encb pad ds p [Hw Hl] Hne Hd Hv Hh He.
-  assert (Hs : safe p = true) by (apply (accepted_values_safe HR p [] p []); [assumption | rewrite app_nil_r; reflexivity]).
-  assert (Hn : none_of LB p = true) by (apply (safe_value_lb LB); exact Hs).
+  intros HR dec encb pad ds p (Hw & Hl & Hpc) Hne Hd Hv Hh He.
+  destruct (accepted_no_reader_break HR p Hv) as [Hn Hc].
   set (C := cfgR dec encb true).
   assert (Hbody : no_lb C (count_line pad ds p)).
-  { change (none_of LB (count_line pad ds p) = true). unfold count_line. rewrite !none_of_app, none_of_cons, Hl, Hn.
-    rewrite (digits_none LB ds digit_LB Hd). reflexivity. }
+  { change (none_of LBR (count_line pad ds p) = true). unfold count_line.
+    rewrite !none_of_app, none_of_cons, Hl, Hn. rewrite (digits_none LBR ds digit_LBR Hd). reflexivity. }
   replace (repeat p (N.to_nat (digits_value ds))) with (repeat p (Z.to_nat (Z.of_N (digits_value ds))))
     by (f_equal; lia).
-  apply (read_single C (count_line pad ds p) p _ LB_LF Hbody); [|lia].
+  apply (read_single C (count_line pad ds p) p _ LBR_LF Hbody); [|lia].
   apply (read_line_count C digit_WS digit_DZ digit_IWS); try reflexivity; try assumption.
-  - apply (no_lb_no_crlf C LB_LF LB_CR). exact Hl.
-  - apply (no_lb_no_crlf C LB_LF LB_CR). exact Hn.
-  - apply unhex_plain. assumption.
+  apply unhex_plain. assumption.
 Qed.
 
 Theorem prefix_hex_inst : forall dec encb (enc : str -> list N) pad ds p,
@@ -273,22 +309,21 @@ Theorem prefix_hex_inst : forall dec encb (enc : str -> list N) pad ds p,
   read_text (cfgR dec encb true) (count_line pad ds (hex_body (enc p)) ++ [LF]) =
     result (repeat p (N.to_nat (digits_value ds))) (Z.of_N (digits_value ds)).
 Proof.
-  intros dec encb enc pad ds p [Hw Hl] Hne Hd Hdec Hb He Hv.
+  intros dec encb enc pad ds p (Hw & Hl & Hpc) Hne Hd Hdec Hb He Hv.
   set (C := cfgR dec encb true).
-  assert (Hn : none_of LB (hex_body (enc p)) = true) by (apply hex_body_none; [exact hex_alphabet_LB | assumption]).
+  assert (Hn : none_of LBR (hex_body (enc p)) = true) by (apply hex_body_none; [exact hex_alphabet_LBR | assumption]).
   assert (Hbody : no_lb C (count_line pad ds (hex_body (enc p)))).
-  { change (none_of LB (count_line pad ds (hex_body (enc p))) = true). unfold count_line.
-    rewrite !none_of_app, none_of_cons, Hl, Hn. rewrite (digits_none LB ds digit_LB Hd). reflexivity. }
+  { change (none_of LBR (count_line pad ds (hex_body (enc p))) = true). unfold count_line.
+    rewrite !none_of_app, none_of_cons, Hl, Hn. rewrite (digits_none LBR ds digit_LBR Hd). reflexivity. }
   replace (repeat p (N.to_nat (digits_value ds))) with (repeat p (Z.to_nat (Z.of_N (digits_value ds))))
     by (f_equal; lia).
-  apply (read_single C _ p _ LB_LF Hbody); [|lia].
+  apply (read_single C _ p _ LBR_LF Hbody); [|lia].
   apply (read_line_count C digit_WS digit_DZ digit_IWS); try reflexivity; try assumption.
-  - apply (no_lb_no_crlf C LB_LF LB_CR). exact Hl.
   - apply hex_body_no_crlf. assumption.
   - unfold C. rewrite unhex_hex by assumption. exact Hdec.
 Qed.
 
-(* what is skipped and what is counted (lines as the codec delivers them) *)
+(* what is skipped and what is counted (lines as the file object delivers them) *)
 Theorem skips_inst : forall dec encb,
   let C := cfgR dec encb false in
   (* nothing refused by check_valid or unencodable is ever yielded *)
@@ -331,29 +366,31 @@ Theorem three_passes_inst : forall dec encb prefix text,
   let C := cfgR dec encb prefix in
   let '(p1, p2, p3) := three_passes C text in
   out p1 = out p2 /\ out p2 = out p3 /\
-  ((forall l, In l (lines_keep LB text) -> (0 <= line_count (read_line C l))%Z) ->
+  ((forall l, In l (lines_keep LBR text) -> (0 <= line_count (read_line C l))%Z) ->
    npw p1 = Z.of_nat (length (out p2)) /\ npw p1 = Z.of_nat (length (out p3))).
 Proof.
   intros dec encb prefix text C. simpl. split; [reflexivity|]. split; [reflexivity|]. intro H.
   split; apply (count_is_length C); assumption.
 Qed.
 
-(* the faithful model of the reader does NOT skip a line with a control
-   character entirely when that character is one the codec splits lines on:
-   the tail becomes a password of its own.  (Stated on the regenerated
-   constants: it holds as long as VT is rejected and the reader iterates the
-   file through codecs.) *)
+(* a reader that iterates the file through codecs (LB) does NOT skip a line
+   with a control character entirely when that character is one the codec
+   splits lines on: the tail becomes a password of its own *)
+Definition codecs_reader (rej : list N) : rcfg :=
+  {| r_lb := LB; r_ws := WS; r_iws := IWS; r_dz := DZ; r_rej := rej; r_rej_empty := true;
+     r_dec := fun _ => None; r_encb := fun _ => true; r_prefix := false |}.
+
 Theorem refuted_tail_after_linebreak :
-  out (read_text (cfgR (fun _ => None) (fun _ => true) false) [97; 98; 11; 99; 100; 10]) = [[99; 100]].
-Proof. vm_compute. reflexivity. Qed.
+  memN 11 rejected_2021 = true /\
+  out (read_text (codecs_reader rejected_2021) [97; 98; 11; 99; 100; 10]) = [[99; 100]] /\
+  out (read_text (codecs_reader (8233 :: rejected_2021)) [97; 98; 8233; 99; 100; 10]) = [[99; 100]].
+Proof. vm_compute. repeat split; reflexivity. Qed.
 
 (* with the published check_valid, a password holding U+2029 is accepted and the
    plain line holding it reads as two passwords *)
 Theorem refuted_plain_2029 :
-  let C := {| r_lb := LB; r_ws := WS; r_iws := IWS; r_dz := DZ; r_rej := rejected_2021; r_rej_empty := true;
-              r_dec := fun _ => None; r_encb := fun _ => true; r_prefix := false |} in
   check_valid rejected_2021 true [97; 98; 8233; 99; 100] = true /\
-  out (read_text C (plain_line [97; 98; 8233; 99; 100])) = [[97; 98; 8233]; [99; 100]].
+  out (read_text (codecs_reader rejected_2021) (plain_line [97; 98; 8233; 99; 100])) = [[97; 98; 8233]; [99; 100]].
 Proof. vm_compute. split; reflexivity. Qed.
 
 (* ================================================================ C06 *)
